@@ -6,6 +6,8 @@ import Proofs.C18.InitFail
 import Proofs.C18.Run
 import Proofs.C18.Live
 import Proofs.C18.Tie
+import Proofs.C18.Fair
+import Proofs.C18.Mgr
 /-!
 # C18 — property theorems (statements; proofs live in `Proofs/C18/*.lean`)
 
@@ -316,8 +318,9 @@ theorem dep_failure_propagates (g : Graph) (hg : Acyclic g) (svcs : List Mod) (e
 
 /-- … and as long as such a started dependant has not terminated it is still waiting for its dependencies,
 the step in which it looks at the failed dependency is enabled, and that step makes it Failed.
-(`_partial`: that the goroutine gets to that step is fairness of the Go scheduler plus the other
-dependencies' latches closing — not modelled; `system_can_always_finish` gives one schedule that does.) -/
+(`_partial`: kept as the one-step statement; the liveness statement itself — on every weakly fair schedule
+every started dependant ends Failed — is `dep_failure_propagates_eventually(_all)` below, with
+`dep_failure_needs_fairness_witness` showing that fairness of the wrapper goroutines is needed.) -/
 theorem dep_failure_propagates_progress_partial (g : Graph) (hg : Acyclic g) (svcs : List Mod) (evs : List REv)
     (d m : Mod) (hd : d ∈ svcs) (hr : Reach g m d)
     (hf : ((wrun g svcs evs).st d).ph = .failed) (hw : ((wrun g svcs evs).st d).wasRunning = false)
@@ -357,6 +360,210 @@ example :
     let g : Graph := { n := 3, deps := [[], [0], [1]] }
     let s := wrun g [0, 2] [.wStart 0, .wStart 2, .depsDone 0, .iStartRet 0 false, .innerStartFailed 0, .cleanupDone 0, .awaitFail 2 0]
     (s.st 0).ph = .failed ∧ (s.st 0).wasRunning = false ∧ (s.st 2).ph = .failed ∧ (s.st 2).inner = .new := by
+  decide +kernel
+
+/-! ### run time: liveness under weak fairness
+
+Infinite schedules `σ : Nat → REv`; `runN s σ k` = state after the first `k` events. `WeaklyFair s σ`: every
+step of a wrapper goroutine of a module of the system (`internalEvents`: a wait on a dependency returning,
+the wrapper moving on inside `start` / `run` / `stop`) that stays enabled is eventually taken. For the Go
+code: a wrapper goroutine blocked in `AwaitRunning(dep)` whose dependency's latch is closed, or runnable
+inside `start`/`stop`, is eventually scheduled. NOTHING is assumed about the environment's events (starting
+or stopping wrappers, the inner services' functions returning): they may never happen. -/
+
+/-- **If a dependency fails to start, its dependants fail as well — eventually, on every fair schedule.**
+`d` failed to start (Failed, never Running) after any history `evs`; `σ` any weakly fair continuation; `m`
+any service module that (transitively) depends on `d`. Whenever `m` is started (at any position `n`, before
+or after the failure), there is a later position from which on `m`'s wrapper is Failed for ever; and `m`'s
+own service is never started. -/
+theorem dep_failure_propagates_eventually (g : Graph) (hg : Acyclic g) (svcs : List Mod) (evs : List REv) (d : Mod)
+    (hd : d ∈ svcs) (hf : ((wrun g svcs evs).st d).ph = .failed) (hw : ((wrun g svcs evs).st d).wasRunning = false)
+    (σ : Nat → REv) (hfair : WeaklyFair (wrun g svcs evs) σ) (m : Mod) (hm : m ∈ svcs) (hr : Reach g m d)
+    (n : Nat) (hs : ((runN (wrun g svcs evs) σ n).st m).started = true) :
+    (∃ k, n ≤ k ∧ ∀ j, k ≤ j → ((runN (wrun g svcs evs) σ j).st m).ph = .failed) ∧
+    ∀ j, ((runN (wrun g svcs evs) σ j).st m).inner = .new :=
+  g_fair_dep_failure g hg svcs evs d hd hf hw σ hfair m hm hr n hs
+
+/-- … with one bound for all the dependants started by position `n`: every fair schedule from a state with a
+dependency that failed to start reaches a position after which ALL started dependants are Failed. -/
+theorem dep_failure_propagates_eventually_all (g : Graph) (hg : Acyclic g) (svcs : List Mod) (evs : List REv) (d : Mod)
+    (hd : d ∈ svcs) (hf : ((wrun g svcs evs).st d).ph = .failed) (hw : ((wrun g svcs evs).st d).wasRunning = false)
+    (σ : Nat → REv) (hfair : WeaklyFair (wrun g svcs evs) σ) (n : Nat) :
+    ∃ K, n ≤ K ∧ ∀ m ∈ svcs, Reach g m d → ((runN (wrun g svcs evs) σ n).st m).started = true →
+      ∀ j, K ≤ j → ((runN (wrun g svcs evs) σ j).st m).ph = .failed :=
+  g_fair_dep_failure_all g hg svcs evs d hd hf hw σ hfair n
+
+/-- the fairness hypothesis is satisfiable from every state: round robin over the goroutine steps. -/
+theorem fair_schedules_exist (s : Sys) (dflt : REv) : WeaklyFair s (roundRobin (internalEvents s.mods) dflt) :=
+  roundRobin_weaklyFair s dflt
+
+/-- the system of the example below: 2 depends on 1 depends on 0, module 1 without service; 0 failed to start, 2 is started. -/
+def failedDepSys : Sys :=
+  wrun { n := 3, deps := [[], [0], [1]] } [0, 2]
+    [.wStart 0, .wStart 2, .depsDone 0, .iStartRet 0 false, .innerStartFailed 0, .cleanupDone 0]
+
+/-- … and it is needed: on the schedule that for ever offers only a disabled event (the scheduler never
+runs 2's goroutine) the started dependant 2 waits for ever; that schedule is not weakly fair. -/
+theorem dep_failure_needs_fairness_witness :
+    (∀ k, ((runN failedDepSys (fun _ => .wStop 0) k).st 2).ph = .waitDeps []) ∧
+    ¬ WeaklyFair failedDepSys (fun _ => .wStop 0) := by
+  have h0 : failedDepSys.local (.wStop 0) = none := by decide +kernel
+  have hconst : ∀ k, runN failedDepSys (fun _ => .wStop 0) k = failedDepSys := runN_const_disabled _ _ h0
+  have hph : (failedDepSys.st 2).ph = .waitDeps [] := by decide +kernel
+  refine ⟨fun k => by rw [hconst k]; exact hph, fun hfair => ?_⟩
+  obtain ⟨k, _, hk⟩ := hfair (.awaitFail 2 0) (by decide +kernel) 0
+  rw [hconst k] at hk
+  rcases hk with hk | hk
+  · exact hk (by decide +kernel)
+  · cases hk
+
+/-- non-vacuity: the hypotheses of `dep_failure_propagates_eventually` on `failedDepSys` with the round-robin
+schedule (weakly fair by `fair_schedules_exist`); 2 is Failed after its 26 events' first round. -/
+example :
+    (failedDepSys.st 0).ph = .failed ∧ (failedDepSys.st 0).wasRunning = false ∧ (failedDepSys.st 2).started = true ∧
+    failedDepSys.mods = [0, 2] ∧ (internalEvents [0, 2]).length = 26 ∧
+    ((runN failedDepSys (roundRobin (internalEvents [0, 2]) (.wStop 0)) 26).st 2).ph = .failed ∧
+    ((runN failedDepSys (roundRobin (internalEvents [0, 2]) (.wStop 0)) 26).st 2).inner = .new := by
+  decide +kernel
+
+/-! ### managers built by ANY sequence of `RegisterModule` / `AddDependency` calls
+
+`buildMgr calls` = the manager after the calls (`MCall.register m hasInit opts` / `MCall.addDep name deps`, results
+ignored), starting from `NewManager`. Module numbers are handed out in order of first registration; a
+`register` with a number already in use is `RegisterModule` on an existing name: the code stores a fresh
+`*module`, so the module's OWN dependencies are dropped while edges pointing to it stay. -/
+
+/-- **Every manager any call sequence can build is acyclic** (re-registration included: it only removes
+edges), its rank is bounded by the number of modules, `AddDependency` and `DependenciesForModule` never recurse
+without bound on it, and a user-visible module is always targetable. -/
+theorem managers_built_by_any_calls_are_acyclic (calls : List MCall) :
+    let M := buildMgr calls
+    Acyclic M.g ∧ (∃ r, Ranked M.g r ∧ ∀ m, r m < M.g.n + 1) ∧
+    M.hasInit.length = M.g.n ∧ M.flags.length = M.g.n ∧
+    (∀ name ds, (addDependency M.g (M.g.n + 1) name ds).1 ≠ .crash) ∧
+    (∀ m, M.dependenciesForModule (M.g.n + 1) m ≠ .crash) ∧
+    (∀ m, M.isUserVisibleModule m = true → M.isTargetableModule m = true) := by
+  intro M
+  have hM : MInv M := minv_build calls
+  obtain ⟨r, hr, hb⟩ := ranked_bounded _ hM.acyclic
+  refine ⟨hM.acyclic, ⟨r, hr, fun m => by have := hb m; omega⟩, hM.lenInit, hM.lenFlags,
+    fun name ds => addDependency_no_crash _ hM.acyclic name ds, fun m hc => ?_, fun m hv => ?_⟩
+  · obtain ⟨h1, h2⟩ := dependenciesForModule_spec M hM m
+    cases hh : M.g.has m with
+    | false => rw [h1 hh] at hc; cases hc
+    | true => obtain ⟨l, hl, _⟩ := h2 hh; rw [hl] at hc; cases hc
+  · simp only [Mgr.isUserVisibleModule, Mgr.isTargetableModule, Bool.and_eq_true] at hv ⊢
+    exact ⟨hv.1, hM.visTarget m hv.2⟩
+
+/-- **`RegisterModule` on an existing name** (any manager built by calls, any registered `m`): afterwards `m`
+has no dependencies, every other module's dependency list is untouched, no new path appears, and every
+module that depended on `m` still does — its dependants are NOT detached. -/
+theorem register_existing_drops_only_own_edges (calls : List MCall) (m : Mod) (hi : Bool) (opts : List ModOpt)
+    (hm : m < (buildMgr calls).g.n) :
+    let g := (buildMgr calls).g
+    let g' := (buildMgr (calls ++ [.register m hi opts])).g
+    g'.n = g.n ∧ g'.depsOf m = [] ∧ (∀ k, k ≠ m → g'.depsOf k = g.depsOf k) ∧
+    (∀ a b, Reach g' a b → Reach g a b) ∧ (∀ x, Reach g x m → Reach g' x m) ∧ ∀ x, ¬ Reach g' m x := by
+  intro g g'
+  have hM : MInv (buildMgr calls) := minv_build calls
+  have hg' : g' = resetGraph g m := by
+    show (buildMgr (calls ++ [.register m hi opts])).g = _
+    rw [buildMgr_snoc]; simp only [Mgr.call]; rw [registerModule_g, if_pos hm]
+  have hd := depsOf_reset g hM.acyclic m hm
+  rw [hg']
+  refine ⟨rfl, by rw [hd, if_pos rfl], fun k hk => by rw [hd, if_neg hk],
+    fun a b h => reset_reach_sub g hM.acyclic m hm h, fun x h => reset_keeps_dependants g hM.acyclic m hm h, fun x h => ?_⟩
+  have : ∀ a b, Reach (resetGraph g m) a b → a ≠ m := by
+    intro a b hab
+    cases hab with
+    | direct hk => rintro rfl; rw [hd, if_pos rfl] at hk; cases hk
+    | step hk _ => rintro rfl; rw [hd, if_pos rfl] at hk; cases hk
+  exact this m x h rfl
+
+/-- **`RegisterModule` of a new name**: it gets the next number, has no dependencies, nothing depends on it,
+and the rest of the graph is as before. -/
+theorem register_new_module (calls : List MCall) (m : Mod) (hi : Bool) (opts : List ModOpt)
+    (hm : ¬ m < (buildMgr calls).g.n) :
+    let g := (buildMgr calls).g
+    let g' := (buildMgr (calls ++ [.register m hi opts])).g
+    g'.n = g.n + 1 ∧ g'.depsOf g.n = [] ∧ (∀ k, g'.depsOf k = g.depsOf k) ∧ (∀ a b, Reach g' a b ↔ Reach g a b) ∧
+    ∀ x, ¬ Reach g' x g.n := by
+  intro g g'
+  have hM : MInv (buildMgr calls) := minv_build calls
+  have hg' : g' = snocGraph g := by
+    show (buildMgr (calls ++ [.register m hi opts])).g = _
+    rw [buildMgr_snoc]; simp only [Mgr.call]; rw [registerModule_g, if_neg hm]
+  rw [hg']
+  have hnone : g.depsOf g.n = [] := depsOf_ge g g.n (by rw [hM.acyclic.len]; exact Nat.le_refl _)
+  refine ⟨rfl, by rw [snocGraph, depsOf_snoc]; exact hnone, fun k => depsOf_snoc g k, fun a b => snoc_reach g a b, fun x h => ?_⟩
+  have h' := (snoc_reach g x g.n).mp h
+  have hlt : ∀ a b, Reach g a b → b < g.n := by
+    intro a b hab
+    induction hab with
+    | direct hk => exact hM.acyclic.closed _ _ hk
+    | step _ _ ih => exact ih
+  exact Nat.lt_irrefl _ (hlt x g.n h')
+
+/-- **The query functions** on every manager built by calls: `IsModuleRegistered` / `IsUserVisibleModule` /
+`IsTargetableModule` of the module a `RegisterModule` call registered are exactly what its options say (the
+LAST registration wins, earlier options and init function are forgotten), no other module's answers change;
+`UserVisibleModuleNames` is sorted, duplicate free and lists exactly the user-visible registered modules;
+`DependenciesForModule` of a registered module is exactly its set of transitive dependencies, and on a
+name that is not registered it dereferences a nil `*module` (a panic — confirmed on the code by the
+`C18.mgr` cases). -/
+theorem module_queries_spec (calls : List MCall) (m : Mod) (hi : Bool) (opts : List ModOpt) :
+    let M := buildMgr calls
+    let M' := buildMgr (calls ++ [.register m hi opts])
+    (M'.isModuleRegistered (regNumber M m) = true ∧ M'.isUserVisibleModule (regNumber M m) = (applyOpts opts).1 ∧
+      M'.isTargetableModule (regNumber M m) = (applyOpts opts).2 ∧ M'.hasInit.getD (regNumber M m) false = hi ∧
+      ∀ k, k ≠ regNumber M m → M'.isModuleRegistered k = M.isModuleRegistered k ∧
+        M'.isUserVisibleModule k = M.isUserVisibleModule k ∧ M'.isTargetableModule k = M.isTargetableModule k) ∧
+    (M.userVisibleModuleNames.Pairwise (· < ·) ∧ ∀ x, x ∈ M.userVisibleModuleNames ↔ M.isUserVisibleModule x = true) ∧
+    (∀ x, M.isModuleRegistered x = false → M.dependenciesForModule (M.g.n + 1) x = .nilDeref) ∧
+    (∀ x, M.isModuleRegistered x = true → ∃ l, M.dependenciesForModule (M.g.n + 1) x = .val l ∧ ∀ y, y ∈ l ↔ Reach M.g x y) := by
+  intro M M'
+  have hM : MInv M := minv_build calls
+  have hM' : M' = registerModule M m hi opts := by
+    show buildMgr (calls ++ [.register m hi opts]) = _
+    rw [buildMgr_snoc]; rfl
+  rw [hM']
+  exact ⟨register_flags M hM m hi opts, userVisibleNames_spec M,
+    fun x hx => (dependenciesForModule_spec M hM x).1 hx, fun x hx => (dependenciesForModule_spec M hM x).2 hx⟩
+
+/-- **Initialisation order on every manager built by calls** (`init_once_in_order` / `init_only_needed` need no
+acyclicity hypothesis any more): whatever the sequence of `RegisterModule` (new or repeated) and `AddDependency`
+calls, a successful `InitModuleServices` calls the init functions of exactly the needed modules that have one,
+once each, every module after all the modules it depends on IN THE FINAL GRAPH (dependencies dropped by a
+re-registration do not count, dependants kept do). -/
+theorem init_in_order_on_built_managers (calls : List MCall) (orders : Nat → Nat → List Mod) (targets : List Mod)
+    (st : InitState)
+    (hord : ∀ c k t x, t ∈ targets → Reach (buildMgr calls).g t x → x ∈ orders c k)
+    (h : initModules (buildMgr calls).g (buildMgr calls).cfg ((buildMgr calls).g.n + 1) orders 0 targets {} = .ok st) :
+    ∃ inited : List Mod, inited.Nodup ∧ topoFrom (buildMgr calls).g [] inited ∧
+      st.log = inited.filter (hasInitOf (buildMgr calls).cfg) ∧ st.log.Nodup ∧
+      (∀ x, Needed (buildMgr calls).g targets x → x ∈ inited) ∧
+      ∀ x ∈ st.log, Needed (buildMgr calls).g targets x := by
+  have hM : MInv (buildMgr calls) := minv_build calls
+  obtain ⟨r, hr, hb⟩ := ranked_bounded _ hM.acyclic
+  have hf : ∀ t ∈ targets, r t < (buildMgr calls).g.n + 1 := fun t _ => by have := hb t; omega
+  obtain ⟨l, h1, h2, h3, h4⟩ := init_spec _ _ r hr _ orders targets st hf hord h
+  refine ⟨l, h1, h2, h4, by rw [h4]; exact h1.sublist List.filter_sublist, fun x hx => (h3 x).mpr hx, fun x hx => ?_⟩
+  rw [h4, List.mem_filter] at hx
+  exact (h3 x).mp hx.1
+
+/-- non-vacuity and the quirk in numbers: 0, 1, 2 registered, 2 → 1 → 0; then module 1 is registered AGAIN
+(user-invisible now): 1 no longer depends on 0, 2 still depends on 1 but no longer (transitively) on 0;
+`AddDependency(0, 2)` — a cycle before the re-registration — is now accepted, `AddDependency(1, 2)` is not. -/
+example :
+    let calls : List MCall := [.register 0 true [], .register 1 true [], .register 2 true [], .addDep 1 [0], .addDep 2 [1]]
+    let M := buildMgr calls
+    let M' := buildMgr (calls ++ [.register 1 false [.userInvisible]])
+    M.dependenciesForModule 4 2 = .val [1, 0] ∧ (M.call (.addDep 0 [2])).1 = .circular ∧
+    M'.dependenciesForModule 4 2 = .val [1] ∧ M'.dependenciesForModule 4 1 = .val [] ∧
+    (M'.call (.addDep 0 [2])).1 = .ok ∧ (M'.call (.addDep 1 [2])).1 = .circular ∧
+    M'.dependenciesForModule 4 7 = .nilDeref ∧ M.userVisibleModuleNames = [0, 1, 2] ∧ M'.userVisibleModuleNames = [0, 2] ∧
+    M'.isTargetableModule 1 = false ∧ M'.hasInit = [true, false, true] ∧
+    (initModules M'.g M'.cfg 4 (fun _ _ => [0, 1, 2]) 0 [2] {}).map (·.log) = .ok [2] := by
   decide +kernel
 
 end PC18
